@@ -53,38 +53,23 @@ func runC30(c *Ctx) {
 		}
 	}
 	fTimer := c.Field("", "connectionManager", "trafficTimer")
-	isRearm := func(in ssa.Instruction) bool {
+	// (also a call of a same-module helper that re-arms the timer on every path to its returns)
+	isRearm := fix5Lift(func(in ssa.Instruction) bool {
 		ci, ok := in.(ssa.CallInstruction)
 		if !ok {
 			return false
 		}
 		o := calleeObj(ci)
 		return o != nil && o.Name() == "Add" && len(callArgs(ci)) > 0 && fromFieldLoad(fTimer)(callArgs(ci)[0])
-	}
+	}, 2)
 	fIdx := c.Field("", "HostMap", "Indexes")
 	notFound := gValNil("hostinfo == nil (not in hostmap)", func(v ssa.Value) bool {
 		return derivesFrom(v, sliceLocal, func(x ssa.Value) bool { lk, ok := x.(*ssa.Lookup); return ok && loadsField(lk.X, fIdx) })
 	})
 	nfEdges, _ := passEdges(fn, notFound)
-	possible := func(v ssa.Value) map[int64]bool {
-		out := map[int64]bool{}
-		var walk func(v ssa.Value, d int)
-		walk = func(v ssa.Value, d int) {
-			if k, ok := constInt(v); ok {
-				out[k] = true
-				return
-			}
-			if phi, ok := v.(*ssa.Phi); ok && d < 8 {
-				for _, e := range phi.Edges {
-					walk(e, d+1)
-				}
-				return
-			}
-			out[-1] = true
-		}
-		walk(v, 0)
-		return out
-	}
+	// the decisions a return can yield: constants through phis and through the results of
+	// same-module helpers (a block of the decision tree extracted into a method); -1 = not enumerable
+	possible := fix5PossibleInts
 	var rets []*ssa.Return
 	for _, b := range fn.Blocks {
 		if r, ok := b.Instrs[len(b.Instrs)-1].(*ssa.Return); ok {
@@ -137,7 +122,8 @@ func runC30(c *Ctx) {
 				}
 			}
 			fPD := c.Field("", "HostInfo", "pendingDeletion")
-			clears := func(in ssa.Instruction) bool {
+			// (also a call of a same-module helper that clears the mark on every path to its returns)
+			clears := fix5Lift(func(in ssa.Instruction) bool {
 				ci, ok := in.(ssa.CallInstruction)
 				if !ok {
 					return false
@@ -147,9 +133,12 @@ func runC30(c *Ctx) {
 					return false
 				}
 				a := callArgs(ci)
+				if len(a) < 2 {
+					return false
+				}
 				bv, isC := boolConst(a[1])
 				return isC && !bv && fromFieldLoad(fPD)(a[0]) || (isC && !bv && isFieldAddrOf(a[0], fPD))
-			}
+			}, 2)
 			if pathThrough(fn, inArm[0], r, clears) {
 				c.Bad("C30.traffic-protects", "pendingDeletion-cleared", c.instrPos(r), "inbound traffic does not clear the pending-deletion mark: the next silent interval deletes a tunnel that was alive")
 				okDec = false
